@@ -26,6 +26,7 @@ Suppressions:
     - type:ignore[assignment,misc]: Tree-sitter Node type alias (optional dependency fallback)
 """
 
+import re
 from typing import Any
 
 from src.analyzers import rust_context
@@ -42,6 +43,16 @@ except ImportError:
     RUST_PARSER = None  # type: ignore[assignment]
     Node = Any  # type: ignore[assignment,misc]
 
+
+
+# `name!` directly followed by an opening delimiter: a macro invocation
+_MACRO_INVOCATION_BANG = re.compile(rb"\b([A-Za-z_][A-Za-z0-9_]*)!(?=\s*[(\[{])")
+
+
+def _blank_bang(match: re.Match[bytes]) -> bytes:
+    """Replace the bang of a macro invocation by a blank (same length), except macro_rules!."""
+    name = match.group(1)
+    return match.group(0) if name == b"macro_rules" else name + b" "
 
 class RustBaseAnalyzer:
     """Base analyzer for Rust code using tree-sitter."""
@@ -64,6 +75,27 @@ class RustBaseAnalyzer:
 
         tree = RUST_PARSER.parse(bytes(code, "utf8"))
         return tree.root_node
+
+    def parse_rust_with_macro_arguments(self, code: str) -> Node | None:
+        """Parse Rust code so that expressions inside macro arguments are part of the AST.
+
+        tree-sitter keeps the arguments of a macro invocation as an unparsed token tree, so
+        calls written there (println!("{}", x.unwrap()), vec![v.clone()], assert!(f(y)))
+        are invisible to analyzers that look for call expressions. The bang of each
+        invocation is blanked before parsing: `name!(args)` is read as the call `name (args)`
+        with every byte at its original position. macro_rules! definitions are left alone.
+
+        Args:
+            code: Rust source code to parse
+
+        Returns:
+            Tree-sitter AST root node, or None if parsing fails or tree-sitter unavailable
+        """
+        if not TREE_SITTER_RUST_AVAILABLE or RUST_PARSER is None:
+            return None
+
+        source = _MACRO_INVOCATION_BANG.sub(_blank_bang, bytes(code, "utf8"))
+        return RUST_PARSER.parse(source).root_node
 
     def walk_tree(self, node: Node, node_type: str) -> list[Node]:
         """Find all nodes of a specific type in the AST.
